@@ -37,9 +37,11 @@ def strip_sentinels(out, k):
     return out
 
 
-def annotate(plain, ss, source, mode, dmp, marks=None, annotator=None):
+def annotate(plain, ss, source, mode, dmp, marks=None, annotator=None, one_shot=False):
     marks = marks or sentinels(len(ss))
     anns = [(tuple(sp), marks[j][0], marks[j][1]) for j, sp in enumerate(ss)]
+    if one_shot:
+        anns = iter(anns)  # the parameter is documented as an Iterable: a generator / iterator can be read only once
     if annotator is not None:
         return annotate_citations(plain, anns, source_text=source, unbalanced_tags=mode, use_dmp=dmp, annotator=annotator)
     return annotate_citations(plain, anns, source_text=source, unbalanced_tags=mode, use_dmp=dmp)
@@ -133,14 +135,14 @@ def render_tree(plain, tree):
         closes = [(i, t) for i, (t, a, b) in enumerate(tree) if b == g and a != g]
         opens = [(i, t) for i, (t, a, b) in enumerate(tree) if a == g]
         for i, t in sorted(closes, reverse=True):
-            out.append(f"</{t}>")
+            out.append(f"</{t.split()[0]}>")
         stack = []
         for i, t in sorted(opens):
             a, b = tree[i][1], tree[i][2]
             if a == b:  # empty element
                 # nested empty elements: open now, close after inner opens at the same gap
                 out.append(f"<{t}>")
-                stack.append(t)
+                stack.append(t.split()[0])
             else:
                 # close pending empty elements unless this one is nested inside them (it cannot be: they are empty)
                 while stack:
